@@ -65,9 +65,10 @@ namespace occa {
   }
 
   memory& memory::swap(memory &m) {
-    modeMemory_t *modeMemory_ = modeMemory;
-    modeMemory   = m.modeMemory;
-    m.modeMemory = modeMemory_;
+    // Swap through the reference-counted setters so both rings stay consistent
+    memory tmp(m);
+    m = *this;
+    *this = tmp;
     return *this;
   }
 
